@@ -45,9 +45,12 @@ Theorem C18_emit_writes_one_ll_per_module : forall n, ll_files_written true n = 
 Proof. intros; split; reflexivity. Qed.
 
 (* "--out-dir D leaves a .pn.ll file with the module's IR for every module": where the file of a
-   module goes (Model/OutPath.v: PathBuf::push, then set_extension("pn.ll")).  For every module
-   given by a relative path whose file is named `<x>.pn`, in any sub-directory: the file is
-   D/<the module's directories>/<x>.pn.ll, and distinct modules get distinct files. *)
+   module goes (Model/OutPath.v: the components of the module path other than its root are pushed,
+   then set_extension("pn.ll")).  For every module whose file is named `<x>.pn`, in any
+   sub-directory, given by a relative or an absolute path (D17, repaired): the file is
+   D/<the module's directories>/<x>.pn.ll, and distinct modules get distinct files (two paths that
+   differ only in being absolute or not are told apart by nothing else: the hypothesis of the
+   second theorem, shown necessary by OutPathProofs.root_only_difference_collides). *)
 Theorem C18_ll_file_under_out_dir : forall d m,
   OutPath.is_pn_module m = true ->
   exists dirs file,
@@ -58,15 +61,16 @@ Proof. exact OutPathProofs.ll_path_under_out_dir. Qed.
 
 Theorem C18_ll_files_distinct : forall d m1 m2,
   OutPath.is_pn_module m1 = true -> OutPath.is_pn_module m2 = true ->
+  OutPath.absolute m1 = OutPath.absolute m2 ->
   OutPath.ll_path d m1 = OutPath.ll_path d m2 -> m1 = m2.
 Proof. exact OutPathProofs.ll_path_injective. Qed.
 
-(* Outside that class the statement is false of the code - the two listed findings: an absolute
-   module path replaces D (D17), and names that differ only in the extension collide (D57). *)
-Theorem C18_absolute_module_path_refuted :
-  exists d m, OutPath.absolute m = true /\ OutPath.comps (OutPath.ll_path d m) = OutPath.set_ext_comps (OutPath.comps m) /\
-              ~ (exists rest, OutPath.comps (OutPath.ll_path d m) = OutPath.comps d ++ rest).
-Proof. exact OutPathProofs.absolute_module_escapes_refuted. Qed.
+(* At the pinned commit (PathBuf::push) an absolute module path replaced D (D17, repaired); names
+   that differ only in the extension still collide (D57, listed). *)
+Theorem C18_absolute_module_path_pinned_refuted :
+  exists d m, OutPath.absolute m = true /\ OutPath.comps (OutPath.ll_path_pinned d m) = OutPath.set_ext_comps (OutPath.comps m) /\
+              ~ (exists rest, OutPath.comps (OutPath.ll_path_pinned d m) = OutPath.comps d ++ rest).
+Proof. exact OutPathProofs.absolute_module_escapes_pinned_refuted. Qed.
 
 Theorem C18_same_stem_refuted :
   exists d m1 m2, OutPath.absolute m1 = false /\ OutPath.absolute m2 = false /\ m1 <> m2 /\
@@ -77,5 +81,5 @@ Print Assumptions C18_backend_precedence.
 Print Assumptions C18_exit_zero_iff_success.
 Print Assumptions C18_ll_file_under_out_dir.
 Print Assumptions C18_ll_files_distinct.
-Print Assumptions C18_absolute_module_path_refuted.
+Print Assumptions C18_absolute_module_path_pinned_refuted.
 Print Assumptions C18_same_stem_refuted.
